@@ -574,6 +574,7 @@ impl<L: ListenerHandler + L7ListenerHandler> Context<L> {
             stream.back_data_received = 0;
             stream.request_counted = false;
             stream.window = i32::try_from(window).unwrap_or(i32::MAX);
+            stream.back_window = h2::DEFAULT_INITIAL_WINDOW_SIZE as i32;
             stream.context = http_context;
             stream.back.clear();
             stream.back.storage.clear();
